@@ -102,6 +102,7 @@ func (sp *SAMLServiceProvider) SetSPKeyStore(ks *KeyStore) error {
 		return ErrSaml{Message: "SP key store signer can't be nil"}
 	}
 	sp.spKeyStoreOverride = ks
+	sp.resetSigningContext()
 	return nil
 }
 
@@ -111,7 +112,16 @@ func (sp *SAMLServiceProvider) SetSPSigningKeyStore(ks *KeyStore) error {
 		return ErrSaml{Message: "SP signing key store signer can't be nil"}
 	}
 	sp.spSigningKeyStoreOverride = ks
+	sp.resetSigningContext()
 	return nil
+}
+
+// resetSigningContext drops the cached signing context so that the next signature is made
+// with the key stores that are configured now.
+func (sp *SAMLServiceProvider) resetSigningContext() {
+	sp.signingContextMu.Lock()
+	sp.signingContext = nil
+	sp.signingContextMu.Unlock()
 }
 
 type KeyStore struct {
